@@ -40,6 +40,15 @@ func (e *fExpr) wuffs() string {
 		return e.name
 	case "const":
 		return fmt.Sprint(e.k)
+	case "slice":
+		lo, hi := "", ""
+		if e.a != nil {
+			lo = e.a.wuffs() + " "
+		}
+		if e.b != nil {
+			hi = " " + e.b.wuffs()
+		}
+		return e.name + "[" + lo + ".." + hi + "]"
 	}
 	l, r := e.a.wuffs(), e.b.wuffs()
 	if e.a.op == "+" || e.a.op == "-" {
@@ -113,6 +122,8 @@ pri func foo.bump!(d: base.u32[..= 7]) base.u32 {
 pri func foo.bar!(x: base.u32[..= 100], y: base.u32[..= 7]) {
 	var i : base.u32[..= 1000]
 	var j : base.u32[..= 1000]
+	var a : array[8] base.u8
+	var s : slice base.u8
 `
 
 func renderProgram(ss []fStmt) string {
@@ -128,10 +139,11 @@ func renderProgram(ss []fStmt) string {
 type spState struct {
 	vals map[string]string // variable -> SMT term
 	pc   []string
+	obl  [][2]string // (description, formula): obligations the checker must have proved on the way (slice bounds)
 }
 
 func (s *spState) clone() *spState {
-	n := &spState{vals: map[string]string{}, pc: append([]string(nil), s.pc...)}
+	n := &spState{vals: map[string]string{}, pc: append([]string(nil), s.pc...), obl: append([][2]string(nil), s.obl...)}
 	for k, v := range s.vals {
 		n.vals[k] = v
 	}
@@ -172,6 +184,23 @@ func applySimple(s fStmt, st *spState) {
 			st.vals["j"] = "5"
 		}
 	case "assign":
+		if s.rhs.op == "slice" {
+			// lhs = base[lo .. hi]: the new length is hi - lo; 0 <= lo <= hi <= base length is the checker's obligation
+			blen := "8"
+			if s.rhs.name == "s" {
+				blen = st.vals["s.length()"]
+			}
+			lo, hi := "0", blen
+			if s.rhs.a != nil {
+				lo = s.rhs.a.smt(st)
+			}
+			if s.rhs.b != nil {
+				hi = s.rhs.b.smt(st)
+			}
+			st.obl = append(st.obl, [2]string{"in bounds: " + s.rhs.wuffs(), "(and (<= 0 " + lo + ") (<= " + lo + " " + hi + ") (<= " + hi + " " + blen + "))"})
+			st.vals["s.length()"] = "(- " + hi + " " + lo + ")"
+			return
+		}
 		r := s.rhs.smt(st)
 		switch s.op {
 		case "=":
@@ -374,6 +403,62 @@ func factsPrograms(depth int, withIf bool) [][]fStmt {
 			out = append(out, append(append([]fStmt(nil), pre...), h2))
 		}
 	}
+	// slices: s = a[lo .. hi] / s = s[lo .. hi] with constant, omitted and variable indexes; the
+	// checker's facts about s.length() and its acceptance of the index ranges are both checked
+	sl := func(base string, lo, hi *fExpr) fStmt {
+		return fStmt{kind: "assign", lhs: "s", op: "=", rhs: &fExpr{op: "slice", name: base, a: lo, b: hi}}
+	}
+	slen := fv("s.length()")
+	firsts := []fStmt{
+		sl("a", nil, nil), sl("a", fk(2), fk(6)), sl("a", nil, fk(8)), sl("a", fk(3), nil), sl("a", y, nil), sl("a", nil, y), sl("a", y, fk(8)),
+		sl("a", fk(0), y), sl("a", i, fk(8)), sl("a", i, nil), sl("a", nil, i), sl("a", fk(2), i), sl("a", i, j), sl("a", y, y), sl("a", i, i),
+	}
+	seconds := []fStmt{
+		sl("s", fk(1), nil), sl("s", nil, fk(2)), sl("s", fk(1), fk(2)), sl("s", y, nil), sl("s", nil, y), sl("s", nil, nil), sl("s", i, nil), sl("s", nil, i),
+		sl("a", fk(2), fk(6)), sl("a", y, nil), sl("a", nil, nil),
+		as("i", "+=", fk(1)), as("i", "=", y), as("j", "=", i), as("i", "=", fk(2)), {kind: "call", lhs: "this.clobber!()"},
+	}
+	spres := [][]fStmt{nil, {as("i", "=", y)}, {as("i", "=", fk(3))}, {as("i", "=", y), as("j", "=", fk(8))}, {as("j", "=", y)}, {as("i", "=", fk(2)), as("j", "=", fb("+", i, y))}}
+	guards := []fStmt{
+		{kind: "if", cl: i, cmp: "<=", cr: fk(8)},
+		{kind: "if", cl: i, cmp: "<", cr: fk(5)},
+		{kind: "if", cl: j, cmp: "<=", cr: fk(8)},
+		{kind: "if", cl: i, cmp: "<=", cr: j},
+		{kind: "if", cl: slen, cmp: ">=", cr: fk(2)},
+		{kind: "if", cl: slen, cmp: "==", cr: fk(8)},
+		{kind: "if", cl: fk(1), cmp: "<", cr: slen},
+	}
+	for _, pre := range spres {
+		for _, f1 := range firsts {
+			out = append(out, append(append([]fStmt(nil), pre...), f1, probe))
+			for _, f2 := range seconds {
+				out = append(out, append(append([]fStmt(nil), pre...), f1, f2, probe))
+			}
+			for _, g := range guards {
+				// slice under a guard; guard after the slice with a second statement inside it
+				g1 := g
+				g1.then = []fStmt{f1, probe}
+				out = append(out, append(append([]fStmt(nil), pre...), g1))
+				g2 := g
+				g2.then = []fStmt{f1}
+				out = append(out, append(append([]fStmt(nil), pre...), g2, probe))
+				for _, f2 := range seconds[:8] {
+					g3 := g
+					g3.then = []fStmt{f2, probe}
+					out = append(out, append(append([]fStmt(nil), pre...), f1, g3))
+					g4 := g
+					g4.then = []fStmt{f2}
+					out = append(out, append(append([]fStmt(nil), pre...), f1, g4, probe))
+				}
+			}
+		}
+		// two nested guards: if i <= j { if j <= 8 { s = a[i .. j] } }
+		inner := guards[2]
+		inner.then = []fStmt{firsts[12], probe}
+		outer := guards[3]
+		outer.then = []fStmt{inner}
+		out = append(out, append(append([]fStmt(nil), pre...), outer))
+	}
 	return out
 }
 
@@ -417,15 +502,17 @@ func runFacts(rc *runCtx) {
 	var wg sync.WaitGroup
 	sem := make(chan struct{}, rc.workers)
 	reached, nfacts, proved, skipped := 0, 0, 0, 0
+	nobl, oblOK := 0, 0
 	falseFacts := map[string][]int{} // fact text -> program indexes
 	var firstWitness = map[string]string{}
-	names := []string{"args.x", "args.y", "this.f", "i", "j"}
-	smtName := map[string]string{"args.x": "cur_x", "args.y": "cur_y", "this.f": "cur_f", "i": "cur_i", "j": "cur_j"}
+	names := []string{"args.x", "args.y", "this.f", "s.length()", "i", "j"}
+	smtName := map[string]string{"args.x": "cur_x", "args.y": "cur_y", "this.f": "cur_f", "s.length()": "cur_slen", "i": "cur_i", "j": "cur_j"}
 	type item struct {
 		idx   int
 		facts  []string
 		npaths int
-		body   string // per path a (push) ... (pop) fragment producing len(facts)+1 answers
+		obls   [][]string // per path: descriptions of the bounds obligations queried after the facts
+		body   string     // per path a (push) ... (pop) fragment producing len(facts)+len(obls[path])+1 answers
 	}
 	var items []item
 	for idx := range progs {
@@ -433,7 +520,7 @@ func runFacts(rc *runCtx) {
 			continue
 		}
 		reached++
-		st := &spState{vals: map[string]string{"args.x": "x0", "args.y": "y0", "this.f": "f0", "i": "0", "j": "0"}}
+		st := &spState{vals: map[string]string{"args.x": "x0", "args.y": "y0", "this.f": "f0", "i": "0", "j": "0", "s.length()": "0"}}
 		pss, _ := spRun(progs[idx], []*spState{st})
 		if len(pss) == 0 {
 			continue
@@ -470,6 +557,12 @@ func runFacts(rc *runCtx) {
 			for _, q := range qsmt {
 				fmt.Fprintf(&sb, "(push 1)(assert (not %s))(check-sat)(pop 1)\n", q)
 			}
+			var descs []string
+			for _, ob := range ps.obl {
+				fmt.Fprintf(&sb, "(push 1)(assert (not %s))(check-sat)(pop 1)\n", ob[1])
+				descs = append(descs, ob[0])
+			}
+			it.obls = append(it.obls, descs)
 			sb.WriteString("(check-sat)\n(pop 1)\n") // reachability of the probe on this path (vacuity)
 		}
 		it.facts = qfacts
@@ -495,7 +588,9 @@ func runFacts(rc *runCtx) {
 			want := 0
 			for _, it := range chunk {
 				sb.WriteString(it.body)
-				want += it.npaths * (len(it.facts) + 1)
+				for _, o := range it.obls {
+					want += len(it.facts) + len(o) + 1
+				}
 			}
 			_, zout := sym.RunScript(sym.Primary(), sb.String(), 120*time.Second)
 			var lines []string
@@ -517,12 +612,28 @@ func runFacts(rc *runCtx) {
 				reachable := false
 				verdict := make([]string, len(it.facts)) // "", "unsat" (holds on every reachable path), "sat", "unknown"
 				for pth := 0; pth < it.npaths; pth++ {
-					ans := lines[k : k+len(it.facts)+1]
-					k += len(it.facts) + 1
-					if ans[len(it.facts)] != "sat" {
+					no := len(it.obls[pth])
+					ans := lines[k : k+len(it.facts)+no+1]
+					k += len(it.facts) + no + 1
+					if ans[len(it.facts)+no] != "sat" {
 						continue // this path does not reach the probe for any input
 					}
 					reachable = true
+					for o, d := range it.obls[pth] {
+						nobl++
+						switch ans[len(it.facts)+o] {
+						case "unsat":
+							oblOK++
+						case "sat":
+							key := "accepted although not " + d
+							falseFacts[key] = append(falseFacts[key], it.idx)
+							if _, ok := firstWitness[key]; !ok {
+								firstWitness[key] = texts[it.idx]
+							}
+						default:
+							rc.broken = append(rc.broken, fmt.Sprintf("facts program %d: solver unknown for obligation %q", it.idx, d))
+						}
+					}
 					for f := range it.facts {
 						switch {
 						case ans[f] == "sat":
@@ -556,13 +667,14 @@ func runFacts(rc *runCtx) {
 	}
 	wg.Wait()
 	rc.states += reached
-	rc.obligations += nfacts
-	rc.discharged += proved
+	rc.obligations += nfacts + nobl
+	rc.discharged += proved + oblOK
+	rc.extra["slice_bounds_obligations_checked"] = nobl
 	rc.extra["fact_programs"] = len(progs)
 	rc.extra["fact_programs_reaching_the_probe"] = reached
 	rc.extra["facts_checked"] = nfacts
 	rc.extra["facts_unparsed_skipped"] = skipped
-	fmt.Printf("facts: %d programs (%d reach the probe), %d facts checked, %d proved, %d false, %d skipped\n", len(progs), reached, nfacts, proved, nfacts-proved, skipped)
+	fmt.Printf("facts: %d programs (%d reach the probe), %d facts checked, %d proved, %d false, %d skipped; %d accepted slice expressions, %d in bounds\n", len(progs), reached, nfacts, proved, nfacts-proved, skipped, nobl, oblOK)
 	if len(progs) > 0 {
 		rc.samples = append(rc.samples, sample{"kind": "fact program", "program": texts[len(texts)/2], "facts": results[len(texts)/2].Facts})
 	}
